@@ -1,8 +1,7 @@
 import Operon.Model.Proto
 import Operon.Model.Lysosome
-import Operon.Gen.LysosomeLocks
-/-! Line-protocol driver for the lysosome model (C13).  The lock kind is the one E3 extracted from the source
-    (`Operon.Gen.LysosomeLocks.lockKind`), so histories in the corpus do not have to name it. -/
+/-! Line-protocol driver for the lysosome model (C13).  The lock kind (last token of a `cfg` line) is the one E3
+    extracted from the source; the harness appends it at run time, so histories in the corpus do not name it. -/
 open Operon Operon.Proto Operon.Lysosome
 
 structure DSt where
@@ -23,10 +22,10 @@ def tyOf : String → WType
 def modeIdx : WType → Nat
   | .misfolded => 0 | .expired => 1 | .failedOp => 2 | .orphaned => 3 | .toxic => 4
 
-def mkCfg (maxQ autoThr : Nat) (ret : Int) (modes tox ontox : String) : Cfg :=
+def mkCfg (maxQ autoThr : Nat) (ret : Int) (modes tox ontox lock : String) : Cfg :=
   let ms := modes.toList
   { maxQ := maxQ, autoThr := autoThr, retention := ret
-    reent := Operon.Gen.LysosomeLocks.lockKind = .rlock
+    reent := lock = "rlock"
     dig := fun it => if ms.getD (modeIdx it.ty) 'b' = 's' then scripted it else builtinDig it
     toxDig := if tox = "s" then some scripted else none
     onToxic := if ontox = "set" then some (fun it => it.content != 0) else none }
@@ -86,11 +85,37 @@ def doOp (d : DSt) (op : Op) : DSt × String :=
     | _ => os ++ " | " ++ dump s'
   ({ d with st := s' }, line ++ " ## " ++ joinSp tags)
 
+def parseAct (a : String) : Option Act :=
+  match a.splitOn "," with
+  | ["I", ty, id, c] => some (.op (.ingest (natD id) (tyOf ty) (natD c)))
+  | ["P", tid, k] => some (.pop (natD tid) (optInt k))
+  | ["T", tid] => some (.iter (natD tid))
+  | ["A"] => some (.op .autophagy)
+  | _ => none
+
+/-- order-insensitive view of the state after a concurrent run -/
+def dumpConc (s : State) : String :=
+  let sortN (l : List Nat) := l.mergeSort (fun a b => a ≤ b)
+  joinSp [ "q=" ++ showList (s.queue.map fun it => toString it.id),
+    s!"ing={s.ingested}", s!"dig={s.digested}", s!"rec={s.recycled}",
+    "keys=" ++ showList ((sortN (s.bin.map (·.1))).map toString),
+    "tox=" ++ showList ((sortN (s.toxicLog.map (·.id))).map toString),
+    s!"rep={s.reported}", s!"auto={s.autoLogged}", s!"em={s.emLogged}", s!"exp={s.expiredRet}",
+    s!"pend={s.gPending.length}" ]
+
 def step' (d : DSt) (toks : List String) : DSt × String :=
   match toks with
+  | ["cfg", mq, at_, ret, modes, tox, ontox, lock] =>
+    ({ cfg := mkCfg (intD mq).toNat (intD at_).toNat (intD ret) modes tox ontox lock, st := {} }, "ok")
   | ["cfg", mq, at_, ret, modes, tox, ontox] =>
-    ({ cfg := mkCfg (intD mq).toNat (intD at_).toNat (intD ret) modes tox ontox, st := {} }, "ok")
-  | ["conc", _, _, _] => (d, "conc")
+    ({ cfg := mkCfg (intD mq).toNat (intD at_).toNat (intD ret) modes tox ontox "lock", st := {} }, "ok")
+  | "conc" :: _ :: _ :: _ :: rest =>
+    match rest with
+    | "@" :: acts =>
+      -- the order of atomic actions recorded from the implementation's scheduled run
+      let s' := runActs d.cfg d.st (acts.filterMap parseAct)
+      ({ d with st := s' }, "conc | " ++ dumpConc s' ++ " ## conc:linearised")
+    | _ => (d, "conc")
   | ["ingest", ty, id, c] => doOp d (.ingest (natD id) (tyOf ty) (natD c))
   | ["ingest_error", id, c] => if natD c = 0 then (d, "bad-op") else doOp d (.ingest (natD id) .failedOp (natD c))
   | ["ingest_sensitive", id, c] => doOp d (.ingest (natD id) .toxic (natD c))
